@@ -394,6 +394,7 @@ func (c *HostClient) Do(ctx context.Context, req *protocol.Request, resp *protoc
 		select {
 		case <-ctx.Done():
 			req.CloseBodyStream() //nolint:errcheck
+			atomic.AddInt32(&c.pendingRequests, -1)
 			return ctx.Err()
 		default:
 		}
